@@ -371,8 +371,8 @@ Definition update_status_from_refs (now : Z) (j : job) : job :=
     | Some _, _ => CFinished JKilled (Some now) (Some now) None
     | None, _ => c0
     end in
-  let j1 := set_status j (j_tasks j) (j_created_tasks j) (j_running_tasks j) ps c (j_phase j) (state_of_cond c0) in
-  set_status j1 (j_tasks j1) (j_created_tasks j1) (j_running_tasks j1) ps c (get_phase now j1) (state_of_cond c0).
+  let j1 := set_status j (j_tasks j) (j_created_tasks j) (j_running_tasks j) ps c (j_phase j) (state_of_cond c) in
+  set_status j1 (j_tasks j1) (j_created_tasks j1) (j_running_tasks j1) ps c (get_phase now j1) (state_of_cond c).
 
 (** UpdateJobTaskRefs *)
 Definition update_task_refs (now : Z) (j : job) (pods : list pod) : job :=
